@@ -25,14 +25,20 @@ int main()
   Obl o3{"size_rotation.within_limit", "C14", "", "no file exceeds rotation_max_file_size unless it holds a single statement or rotation had to stop (no overwrite, backup limit reached)"};
   Obl o4{"size_rotation.file_count", "C14", "", "at most max_backup_files + 1 files exist"};
   long n = 0; uint32_t const backups[3] = {1, 2, 0xffffffffu};
-  for (uint32_t mb : backups) for (int ow = 0; ow < 2; ++ow)
+  // two ways to name the log file: "d/r.log" and - a directory with a dot in its name, a file without an extension - "v1.2/app"
+  // (the rotated names are derived from the file name's stem and extension: "r.1.log" / "app.1", always inside the same directory)
+  struct Naming { char const* dir; char const* file; char const* stem; char const* ext; };
+  Naming const namings[2] = {{"d", "r.log", "r", ".log"}, {"v1.2", "app", "app", ""}};
+  for (Naming const& nm : namings) for (uint32_t mb : backups) for (int ow = 0; ow < 2; ++ow)
   {
+    std::string const stem_dot = std::string(nm.stem) + ".", ext = nm.ext, current = nm.file;
     n += for_all_strings("abc", LEN, [&](std::string const& seq) {
-      fs::path dir = fs::path(base) / "d"; fs::remove_all(dir); fs::create_directories(dir);
+      fs::remove_all(fs::path(base) / "d"); fs::remove_all(fs::path(base) / "v1.2");
+      fs::path dir = fs::path(base) / nm.dir; fs::create_directories(dir);
       std::vector<std::string> stmts; std::string all;
       {
         quill::RotatingFileSinkConfig cfg; cfg.set_open_mode('w'); cfg.set_rotation_max_file_size(LIMIT); cfg.set_max_backup_files(mb); cfg.set_overwrite_rolled_files(ow != 0);
-        quill::RotatingFileSink sink(dir / "r.log", cfg);
+        quill::RotatingFileSink sink(dir / current, cfg);
         uint64_t ts = 1700000000ull * 1000000000ull;
         for (size_t k = 0; k < seq.size(); ++k)
         {
@@ -47,11 +53,14 @@ int main()
       for (auto const& e : fs::directory_iterator(dir))
       {
         std::string name = e.path().filename().string(); long idx = -1;
-        if (name == "r.log") idx = 0; else if (name.rfind("r.", 0) == 0 && name.size() > 6 && name.substr(name.size() - 4) == ".log") idx = atol(name.substr(2, name.size() - 6).c_str());
+        if (name == current) idx = 0;
+        else if (name.rfind(stem_dot, 0) == 0 && name.size() > stem_dot.size() + ext.size() && name.substr(name.size() - ext.size()) == ext) idx = atol(name.substr(stem_dot.size(), name.size() - stem_dot.size() - ext.size()).c_str());
         files.push_back({idx, e.path()});
       }
+      // nothing of the sequence may be created outside the directory of the log file (e.g. next to a directory whose name has a dot)
+      size_t outside = 0; for (auto const& e : fs::directory_iterator(base)) if (e.path().filename() != nm.dir) ++outside;
       std::sort(files.begin(), files.end(), [](auto const& a, auto const& b) { return a.first > b.first; });
-      std::string in = "backups=" + std::to_string(mb) + " overwrite=" + std::to_string(ow) + " sizes=" + seq;
+      std::string in = std::string(nm.dir) + "/" + nm.file + " backups=" + std::to_string(mb) + " overwrite=" + std::to_string(ow) + " sizes=" + seq;
       std::string cat; bool sizes_ok = true; size_t pos_stmt = 0; bool whole = true;
       std::vector<std::string> contents; for (auto const& f : files) { contents.push_back(slurp(f.second)); cat += contents.back(); }
       // cat must be a suffix of `all` starting at a statement boundary
@@ -68,7 +77,7 @@ int main()
         bool stopped = (ow == 0 && mb != 0xffffffffu && files.size() == (size_t)mb + 1 && newest);
         if (contents[i].size() > LIMIT && cnt != 1 && !stopped) sizes_ok = false;
       }
-      check(o1, suffix && whole, in);
+      check(o1, suffix && whole && outside == 0, in + (outside ? " (files created outside the log directory)" : ""));
       bool may_lose = (ow != 0 && mb != 0xffffffffu);
       check(o2, suffix && (may_lose || first == 0), in);
       if (suffix && whole) check(o3, sizes_ok, in);
@@ -76,7 +85,7 @@ int main()
     });
   }
   fs::remove_all(base);
-  printf("SPACE every sequence of <= %d statements with sizes from {150, 290, 700} bytes, limit 600, max_backup_files in {1, 2, unlimited} x overwrite in {true, false}, on real files\n", LEN);
+  printf("SPACE {d/r.log, v1.2/app (dotted directory, no extension)} x every sequence of <= %d statements with sizes from {150, 290, 700} bytes, limit 600, max_backup_files in {1, 2, unlimited} x overwrite in {true, false}, on real files\n", LEN);
   printf("DISTINCT %ld\n", n);
   printf("SAMPLE backups=1 overwrite=1 sizes=abcab\n");
   report(o1); report(o2); report(o3); report(o4);
